@@ -22,7 +22,7 @@ RULE = ('A generated ledger (G1, comment-dense) parsed with attribution on or of
 ASSUMPTIONS = ['an exception raised by a read (e.g. hash of a tree model) is not a violation; the document is still compared',
                'mutators are never called: callables are invoked only from a whitelist']
 SHRINK_LISTS = ('ops', 'dirs')
-REQUIRED_CLASSES = ('act:attrs', 'act:wrappers', 'act:claim', 'act:copy', 'claim:on', 'claim:off', 'attribution-changed')
+REQUIRED_CLASSES = ('lf:4', 'act:attrs', 'act:wrappers', 'act:claim', 'act:copy', 'claim:on', 'claim:off', 'attribution-changed')
 
 CLAIM_OPS = ['auto', 'claim_leading_comment', 'unclaim_leading_comment', 'claim_trailing_comment', 'unclaim_trailing_comment',
              'claim_interleaving_comments', 'unclaim_interleaving_comments', 'claim_interleaving_subset', 'unclaim_interleaving_subset']
@@ -87,12 +87,21 @@ def exercise_wrapper(w: Any, p: Any) -> None:
 
 
 def run_case(case: dict) -> Result:
+    from vf.gen import store as GS
+    old = GS.set_lf(int(case.get('lf', 1000)))
+    try:
+        return _run(case)
+    finally:
+        GS.restore_lf(old)
+
+
+def _run(case: dict) -> Result:
     res = Result()
     claim = bool(case.get('claim', True))
     root = common.parse_case(case, claim=claim)
     if root is None:
         return Result(discard=True)
-    classes = {'claim:on' if claim else 'claim:off'}
+    classes = {'claim:on' if claim else 'claim:off', 'lf:%d' % int(case.get('lf', 1000))}
     has_comment = any(type(t).__name__ == 'BlockComment' for t in O.store_tokens(root.token_store))
     for op in case['ops']:
         idx = OPS.index_models(root)
@@ -301,13 +310,18 @@ def _build_pingpong(tier: str):
             if g.p(0.4):
                 groups.append(g.trivia() or [[]])
         chunks = L.merge_comments([c for c in (g.join_lines(x) for x in groups) if c])
+        from vf.gen import store as GS
         claim = g.p(0.5)
-        case = {'dirs': chunks, 'ops': [], 'claim': claim}
+        lf = 4 if g.p(0.35) else 1000   # small blocks: ranges re-spliced by the claims cross block boundaries
+        case = {'dirs': chunks, 'ops': [], 'claim': claim, 'lf': lf}
+        old = GS.set_lf(lf)
         try:
             root = common.parse_file(L.text_of(chunks), claim)
             case['ops'] = pingpong_ops(g, root)
         except Exception:  # noqa: BLE001
             pass
+        finally:
+            GS.restore_lf(old)
         return case
     return build
 
@@ -335,7 +349,7 @@ def _build(tier: str):
                 op['ignore'] = g.p(0.7)
                 op['li'] = g.n(0, 1)
             ops.append(op)
-        return {'dirs': chunks, 'ops': ops, 'claim': g.p(0.5)}
+        return {'dirs': chunks, 'ops': ops, 'claim': g.p(0.5), 'lf': 4 if g.p(0.35) else 1000}
     return build
 
 
